@@ -125,7 +125,7 @@ func (w *World) monitorRequests() {
 			if has("ErrAbandoned") && !wrote {
 				w.Violate("C11", "abandoned-without-write", "%s op %d (%s) returned ErrAbandoned without a write", a.spec.Name, r.Idx, op.Kind)
 			}
-			if has("ErrSubmit") && !failedWrite {
+			if has("ErrSubmit") && !failedWrite && kind != "disc" {
 				w.Violate("C11", "submit-error-without-failed-write", "%s op %d (%s) returned ErrSubmit but none of its writes failed", a.spec.Name, r.Idx, op.Kind)
 			}
 			// the packet of this request on the wire
